@@ -1686,3 +1686,140 @@ func ecsHopToHop(c *an.Ctx, rule string) {
 		},
 	})
 }
+
+// mainmwFilterSteps holds the tables of the main middleware's two filtering steps.
+func mainmwFilterSteps(c *an.Ctx, rule string) {
+	const mm = "dnssvc/internal/mainmw.(*Middleware)."
+	common := func(it *an.Interp, name string, args []an.AV) (an.AV, bool) {
+		switch {
+		case name == "time.Now":
+			return an.Sym("start"), true
+		case name == "time.Since":
+			return an.Sym("dur"), true
+		case strings.HasSuffix(name, "errcoll.Collect"):
+			return an.Nil(), true
+		case strings.HasSuffix(name, ").putFltReq"), strings.HasSuffix(name, ").putFltResp"):
+			return an.Nil(), true
+		}
+		return an.AV{}, false
+	}
+	modT := "*filter/internal.ResultModifiedRequest"
+	decide(c, rule, mm+"filterRequest", an.DecideCfg{
+		Dom: an.Domain{"type(res)": append(an.Strs(modT, "*filter/internal.ResultBlocked"), an.Nil()), "err": an.Bools},
+		OnCall: func(it *an.Interp, name string, args []an.AV) (an.AV, bool) {
+			switch {
+			case strings.HasSuffix(name, ").reqInfoToFltReq"):
+				return an.NonNil("fltreq(" + args[1].String() + "," + args[2].String() + ")"), true
+			case name == "p3.FilterRequest":
+				e := an.Nil()
+				if it.Feature("err").IsTrue() {
+					e = an.NonNil("fltErr")
+				}
+				t := it.Feature("type(res)")
+				r := an.Nil()
+				if t.Kind != an.KNil {
+					r = an.NonNil("res")
+					r.Dyn = avStr(t)
+				}
+				return an.AV{Kind: an.KTuple, Tup: []an.AV{r, e}}, true
+			}
+			return common(it, name, args)
+		},
+		Expect: func(f an.Features, o an.AOutcome) string {
+			n := 0
+			for _, e := range o.Effects {
+				if e.Kind == "call" && e.Name == "p3.FilterRequest" {
+					n++
+					if strings.Join(e.Args, ",") != "p1,nonnil:fltreq(p2.originalRequest,p4)" {
+						return "the filter asked about this request (original message, this request's information); got " + strings.Join(e.Args, ",")
+					}
+				}
+			}
+			if n != 1 {
+				return "exactly one FilterRequest"
+			}
+			st := map[string]string{}
+			for _, e := range o.Effects {
+				if e.Kind == "store" {
+					st[e.Name] = e.Args[0]
+				}
+			}
+			wantRes := "nil"
+			if !f.IsNil("type(res)") {
+				wantRes = "nonnil:res"
+			}
+			if st["p2.requestResult"] != wantRes {
+				return "the verdict recorded in the filtering context; got " + st["p2.requestResult"]
+			}
+			if !f.IsNil("type(res)") && f.S("type(res)") == modT {
+				if st["p2.modifiedRequest"] != "res.Msg" {
+					return "the rewritten request recorded so that it, not the original, goes upstream; got " + st["p2.modifiedRequest"]
+				}
+			} else if st["p2.modifiedRequest"] != "" {
+				return "no rewritten request for other verdicts"
+			}
+			return ""
+		},
+	})
+	decide(c, rule, mm+"filterResponse", an.DecideCfg{
+		Dom: an.Domain{"p2.modifiedRequest": {an.Nil(), an.NonNil("modreq")}, "err": an.Bools},
+		OnCall: func(it *an.Interp, name string, args []an.AV) (an.AV, bool) {
+			switch {
+			case strings.HasSuffix(name, ").reqInfoToFltResp"):
+				return an.NonNil("fltresp(" + args[1].String() + "," + args[2].String() + ")"), true
+			case name == "p3.FilterResponse":
+				e := an.Nil()
+				if it.Feature("err").IsTrue() {
+					e = an.NonNil("fltErr")
+				}
+				return an.AV{Kind: an.KTuple, Tup: []an.AV{an.Sym("respres"), e}}, true
+			case strings.HasSuffix(name, "Constructor).NewAnswerCNAME"):
+				return an.NonNil("cname(" + args[1].String() + "," + args[2].String() + ")"), true
+			case name == "slices.Insert":
+				var as []string
+				for _, a := range args {
+					as = append(as, a.String())
+				}
+				return an.NonNil("insert(" + strings.Join(as, ",") + ")"), true
+			}
+			return common(it, name, args)
+		},
+		Expect: func(f an.Features, o an.AOutcome) string {
+			st := map[string]string{}
+			for _, e := range o.Effects {
+				if e.Kind == "store" {
+					st[e.Name] = e.Args[0]
+				}
+			}
+			asked := o.HasCall("p3.FilterResponse")
+			if f.IsNil("p2.modifiedRequest") {
+				if !asked {
+					return "the filter asked about the upstream answer"
+				}
+				for _, e := range o.Effects {
+					if e.Kind == "call" && e.Name == "p3.FilterResponse" && strings.Join(e.Args, ",") != "p1,nonnil:fltresp(p2.originalResponse,p4)" {
+						return "the filter asked about this request's upstream answer; got " + strings.Join(e.Args, ",")
+					}
+				}
+				if st["p2.responseResult"] != "respres" {
+					return "the response verdict recorded; got " + st["p2.responseResult"]
+				}
+				return ""
+			}
+			if asked {
+				return "no response filtering for a CNAME-rewritten request"
+			}
+			if st["p2.originalResponse.MsgHdr.Id"] != "p2.originalRequest.MsgHdr.Id" {
+				return "the answer's ID restored to the original request's; got " + st["p2.originalResponse.MsgHdr.Id"]
+			}
+			if st["p2.originalResponse.Question[0]"] != "p2.originalRequest.Question[0]" {
+				return "the answer's question restored to the original request's; got " + st["p2.originalResponse.Question[0]"]
+			}
+			ans := st["p2.originalResponse.Answer"]
+			if !strings.HasPrefix(ans, "nonnil:insert(p2.originalResponse.Answer,0,") || !strings.Contains(ans, "cname(p2.originalRequest,modreq.Question[0].Name)") {
+				return "a CNAME from the original name to the rewritten name put in front of the answer section; got " + ans
+			}
+			return ""
+		},
+	})
+}
